@@ -23,6 +23,19 @@ macro_rules! ii {
     }};
 }
 
+/// Comparisons can run the `__eq` / `__lt` / `__le` of lists, blobs and tuples, which
+/// look at the contents when they are evaluated. They are emitted where they are written
+/// and never inlined at their use: a call evaluated in between could change an operand.
+macro_rules! cmp {
+    ( $self:expr, $var:expr, $op:literal, $a:expr, $b:expr ) => {{
+        if $self.usage_count.get($var).unwrap_or(&0) > &0 {
+            let a = $self.expand($a).to_string();
+            let b = $self.expand($b);
+            write!($self.out, "local {} = ({} {} {})", $var.format(), a, $op, b);
+        }
+    }};
+}
+
 macro_rules! iis {
     ( $self:expr, $var:expr, $fmt:literal, $( $dep:expr ),* ) => {
         {
@@ -153,12 +166,12 @@ impl<'a, 'b> Generator<'a, 'b> {
                 IR::Str(t, s) => iis!(self, t, "\"{}\"", lua_string(s)),
                 IR::Float(t, f) => iis!(self, t, "{}", lua_float(*f)),
 
-                IR::Equals(t, a, b) => ii!(self, t, "({} == {})", a, b),
-                IR::LessEqual(t, a, b) => ii!(self, t, "({} <= {})", a, b),
-                IR::Less(t, a, b) => ii!(self, t, "({} < {})", a, b),
-                IR::GreaterEqual(t, a, b) => ii!(self, t, "({} >= {})", a, b),
-                IR::Greater(t, a, b) => ii!(self, t, "({} > {})", a, b),
-                IR::NotEquals(t, a, b) => ii!(self, t, "({} ~= {})", a, b),
+                IR::Equals(t, a, b) => cmp!(self, t, "==", a, b),
+                IR::LessEqual(t, a, b) => cmp!(self, t, "<=", a, b),
+                IR::Less(t, a, b) => cmp!(self, t, "<", a, b),
+                IR::GreaterEqual(t, a, b) => cmp!(self, t, ">=", a, b),
+                IR::Greater(t, a, b) => cmp!(self, t, ">", a, b),
+                IR::NotEquals(t, a, b) => cmp!(self, t, "~=", a, b),
 
                 IR::Not(t, a) => ii!(self, t, "(not {})", a),
 
